@@ -158,6 +158,9 @@ func (e *evaluator) nextMainRecord() (string, bool) {
 				e.hadFiles = true
 			}
 		}
+		// (unspecified corner, mirrored: RT is reset to RS before every attempt to
+		// read the main input, also the one that hits end of file)
+		e.rt = e.rs
 		rec, ok := e.read(e.mainReader, true)
 		if ok {
 			e.nr = num(e.nr.toNum() + 1)
